@@ -43,8 +43,9 @@ def _one(job):
         except Exception:
             pass
         for proc, d in getattr(group, "_verif_cleanup", []):
-            proc.kill()
-            proc.wait()
+            if proc is not None:
+                proc.kill()
+                proc.wait()
             import shutil
 
             shutil.rmtree(d, ignore_errors=True)
